@@ -485,9 +485,10 @@ def check(run: Run) -> None:
     from ..flatten import flat_info as _flat_info
 
     fa_flat = _flat_info(model, fa.qualname)  # `prog()` may live in an extracted `_parse_zorg_file` helper
-    walk_calls = [c for c in ast.walk(fa.node) if isinstance(c, ast.Call) and isinstance(c.func, ast.Attribute) and c.func.attr == "walk"]
+    walk_calls = [c for c in ast.walk(fa_flat.node) if isinstance(c, ast.Call) and isinstance(c.func, ast.Attribute) and c.func.attr == "walk"]
+    run.floor("walker.walk calls in walk_zorg_page (helpers folded in)", len(walk_calls), 1)
     fenced = False
-    for t in walk_no_nested(fa.node):
+    for t in walk_no_nested(fa_flat.node):
         if isinstance(t, ast.Try) and any(w in list(ast.walk(s)) for s in t.body for w in walk_calls):
             for h in t.handlers:
                 broad = h.type is None or ast.unparse(h.type) in ("Exception", "BaseException")
@@ -533,7 +534,7 @@ def check(run: Run) -> None:
                 pass
         # structural: some statement after prog() of the form  if <errors>: page.has_errors = True  that is not inside an except handler
     post = False
-    for s in fa.node.body:
+    for s in fa_flat.node.body:
         if isinstance(s, ast.If) and "errors" in ast.unparse(s.test) and any("has_errors" in ast.unparse(x) and isinstance(x, ast.Assign) for x in ast.walk(s)):
             post = True
         if isinstance(s, ast.Assign) and "has_errors" in ast.unparse(s.targets[0]) and "errors" in ast.unparse(s.value):
